@@ -58,17 +58,24 @@ class CacheFn:
             return "call:collections.OrderedDict.get" in oo
         return False
 
-    def entry_field(self, e: ast.AST) -> int | None:
+    def entry_field(self, e: ast.AST, _depth: int = 0) -> int | None:
         """0 for entry[0]/entry.value, 1 for entry[1]/entry.expire."""
         e = unwrap(e)
         if isinstance(e, ast.Subscript) and self.is_entry(e.value) and isinstance(e.slice, ast.Constant):
             return e.slice.value if e.slice.value in (0, 1) else None
         if isinstance(e, ast.Attribute) and self.is_entry(e.value):
             return {"value": 0, "expire": 1}.get(e.attr)
-        if isinstance(e, ast.Name):
+        if isinstance(e, ast.Name) and not self.is_entry(e):
             sv = self.d.single_value(e.id)
-            if sv is not None and not self.is_entry(e):
+            if sv is not None:
                 return self.entry_field(sv)
+            owner = self.d.owner(e.id)
+            if owner is not None and _depth < 4:
+                vals = [n for k, n in self.d.defs(owner, e.id) if k == "value" and not getattr(parent(n), "_inline_init", False) and not (isinstance(n, ast.Constant) and n.value is None)]
+                kinds = {k for k, _ in self.d.defs(owner, e.id)}
+                fields = {self.entry_field(v, _depth + 1) for v in vals}
+                if vals and kinds == {"value"} and len(fields) == 1:
+                    return next(iter(fields))
         return None
 
     def returns_entry_value(self, r: Node) -> bool:
@@ -96,14 +103,29 @@ class CacheFn:
             fld = self.entry_field(e) if isinstance(e, (ast.Subscript, ast.Attribute)) else None
             if fld == 1:
                 return expire
+            if fld == 0 and present:
+                return _VALUE
             if isinstance(e, ast.Name) and self.is_entry(e):
                 return _ENTRY if present else None
             return NOVALUE
 
         return with_locals(self.d, f)
 
+    def sc_from(self, env):
+        from ..kinds import Scenario
+
+        return Scenario(self.g, self.d, env)
+
+    def sc(self, **kw):
+        """Scenario (fixpoint constant propagation through locals) for the given cache state."""
+        from ..kinds import Scenario
+
+        base = self.env(**kw)
+        return Scenario(self.g, self.d, base)
+
 
 _ENTRY = object()
+_VALUE = object()
 
 
 def cached_ops_elsewhere(an: Analysis):
@@ -232,7 +254,7 @@ def check(an: Analysis) -> None:
         ob3.inst(fi, s.lookups[0].ast)
         hit_envs = {"present, never expires": s.env(present=True, expire=None), "present, expires later": s.env(present=True, expire=100.0, now=50.0)}
         for label, env in hit_envs.items():
-            sc = scenario(g, env)
+            sc = s.sc_from(env).skip
             reach = g.reachable([g.entry], skip_edge=sc)
             live = [r for r in s.returns if r.id in reach]
             if not live:
@@ -252,8 +274,7 @@ def check(an: Analysis) -> None:
             w = g.search([g.entry], lambda n: n in s.dels or n in s.pops, skip_edge=sc)
             if w is not None:
                 ob3.fail(fi, w[-1].ast, f"[{label}] an unexpired entry is removed on a hit", CFG.show_path(w))
-        env = s.env(present=True, expire=100.0, now=200.0)
-        sc = scenario(g, env)
+        sc = s.sc(present=True, expire=100.0, now=200.0).skip
         reach = g.reachable([g.entry], skip_edge=sc)
         for r in [r for r in s.returns if r.id in reach]:
             if s.returns_entry_value(r):
@@ -268,7 +289,7 @@ def check(an: Analysis) -> None:
             w = g.must_pass(lambda n: n in s.dels, exits=("exit-return",), skip_edge=both(sc, normal_only))
             if w is not None:
                 ob3.fail(fi, s.dels[0].ast, "[present, expired] the stale entry is not removed before the miss path", CFG.show_path(w))
-        sc = scenario(g, s.env(present=False))
+        sc = s.sc(present=False).skip
         w = g.must_pass(lambda n: n in s.fcalls, exits=("exit-return",), skip_edge=both(sc, normal_only))
         if w is not None:
             ob3.fail(fi, s.lookups[0].ast, "[absent] a path returns without calling the function", CFG.show_path(w))
@@ -282,7 +303,7 @@ def check(an: Analysis) -> None:
             continue
         ob4.inst(fi, s.stores[0].ast)
         miss = s.env(present=False)
-        w = g.must_pass(lambda n: n in s.stores, exits=("exit-return",), skip_edge=both(scenario(g, miss), normal_only))
+        w = g.must_pass(lambda n: n in s.stores, exits=("exit-return",), skip_edge=both(s.sc(present=False).skip, normal_only))
         if w is not None:
             ob4.fail(fi, s.stores[0].ast, "[absent] a path returns without storing the result", CFG.show_path(w))
         if not s.pops:
@@ -294,11 +315,11 @@ def check(an: Analysis) -> None:
             if not (isinstance(last, ast.Constant) and last.value is False):
                 ob4.fail(fi, pn.ast, "eviction removes the most recently used entry (popitem must use last=False)")
         starts = [t for st in s.stores for t, lab in st.succ if lab not in ("exc", "reraise")]
-        over = scenario(g, s.env(present=False, size=4, limit=3))
+        over = s.sc(present=False, size=4, limit=3).skip
         w = g.must_pass(lambda n: n in s.pops, starts=starts, exits=("exit-return",), skip_edge=both(over, normal_only))
         if w is not None:
             ob4.fail(fi, s.pops[0].ast, "[len == limit + 1 after the store] a path returns without evicting: more than `limit` entries stay alive", CFG.show_path(w))
-        at = scenario(g, s.env(present=False, size=3, limit=3))
+        at = s.sc(present=False, size=3, limit=3).skip
         w = g.search(starts, lambda n: n in s.pops, skip_edge=both(at, normal_only), include_start=True)
         if w is not None:
             ob4.fail(fi, s.pops[0].ast, "[len == limit after the store] an entry is evicted although the limit is not exceeded: fewer than `limit` recent keys are retained", CFG.show_path(w))
